@@ -21,6 +21,35 @@ def signedVal (s : Sign) (m : Nat) : Int :=
 def oSign (v : Int) : Option Sign :=
   if v = -1 then some .minus else if v = 0 then some .nosign else if v = 1 then some .plus else none
 
+def parseKind (s : String) : Option TokKind :=
+  match s with
+  | "i8" => some .i8 | "i16" => some .i16 | "i32" => some .i32 | "i64" => some .i64 | "i128" => some .i128
+  | "u8" => some .u8 | "u16" => some .u16 | "u32" => some .u32 | "u64" => some .u64 | "u128" => some .u128
+  | "bool" | "f32" | "f64" | "char" | "str" | "bytes" | "unit" | "none" | "seq" => some .other
+  | _ => none
+
+/-- `kind:value` -/
+def parseTok (s : String) : Option (TokKind × Int) :=
+  match s.splitOn ":" with
+  | [k, v] => do let k ← parseKind k; let v ← parseInt v; pure (k, v)
+  | _ => none
+
+/-- `tok,tok,…` or `.` -/
+def parseTokList (s : String) : Option (List (TokKind × Int)) :=
+  if s == "." then some [] else (s.splitOn ",").mapM parseTok
+
+/-- independent statement for typed element sequences -/
+def oTokSeq (toks : List (TokKind × Int)) : Option (List Nat) :=
+  if toks.all (fun t => (match t.1 with | .i128 | .u128 | .other => false | _ => true)
+      && decide (0 ≤ t.2) && decide (t.2 < 4294967296))
+  then some (ofNat (valBase W (toks.map (fun t => t.2.toNat)))) else none
+
+/-- independent statement: accepted iff a ≤ 64-bit integer token whose value is −1, 0 or 1 -/
+def oSignTok (k : TokKind) (v : Int) : Option Sign :=
+  match k with
+  | .i128 | .u128 | .other => none
+  | _ => oSign v
+
 def handle (op : String) (args : List String) : Option (String × String) :=
   match op, args with
   | "u.ser", [a] => do
@@ -88,6 +117,32 @@ def handle (op : String) (args : List String) : Option (String × String) :=
     let sg ← (match s.toList with | [c] => parseSign c | _ => none)
     pure ("ok i8:" ++ showInt (serSign sg),
           "ok i8:" ++ showInt (match sg with | .minus => -1 | .nosign => 0 | .plus => 1))
+  | "u.de_tl", [l] => do
+    let l ← parseTokList l
+    let sh : Option (List Nat) → String := fun r => match r with | some d => "ok " ++ showLimbs d | none => "err"
+    pure (sh (deTokSeq none l), sh (oTokSeq l))
+  | "u.de_tl", [l, h] => do
+    let l ← parseTokList l; let h ← parseHint h
+    let sh : Option (List Nat) → String := fun r => match r with | some d => "ok " ++ showLimbs d | none => "err"
+    pure (sh (deTokSeq h l), sh (oTokSeq l))
+  | "i.de_t", [kv, w] => do
+    let (k, v) ← parseTok kv; let w ← parseWords w
+    let m := match deBigIntTok k v none w with | some x => "ok " ++ showBigInt x | none => "err"
+    let o := match oSignTok k v with
+      | some s => "ok " ++ showBigInt (BigInt.ofInt (signedVal s (valBase W w)))
+      | none => "err"
+    pure (m, o)
+  | "i.de_t", [kv, w, h] => do
+    let (k, v) ← parseTok kv; let w ← parseWords w; let h ← parseHint h
+    let m := match deBigIntTok k v h w with | some x => "ok " ++ showBigInt x | none => "err"
+    let o := match oSignTok k v with
+      | some s => "ok " ++ showBigInt (BigInt.ofInt (signedVal s (valBase W w)))
+      | none => "err"
+    pure (m, o)
+  | "sign.de_t", [kv] => do
+    let (k, v) ← parseTok kv
+    let sh : Option Sign → String := fun r => match r with | some s => "ok " ++ showSign s | none => "err"
+    pure (sh (deSignTok k v), sh (oSignTok k v))
   | "sign.de", [v] => do
     let v ← parseInt v
     let sh : Option Sign → String := fun r => match r with | some s => "ok " ++ showSign s | none => "err"
